@@ -16,8 +16,15 @@ document — $col arithmetic, reference chains, reference-list attributes, looku
 with CONTAINS and order_by, summary $group, PREVIOUS / NEXT / RANK, cross-table chains.  Volatile or
 side-effecting functions (NOW, TODAY, RAND*, REQUEST, PEEK, lookupOrAddDerived) are never generated;
 trigger-formula data columns are data (loaded, not compared).
-Bounded: seeded random histories over 9 seed documents; never a proof.  The dependency graph itself
-(depend.Graph + dynamic edge recording in Engine._use_node) is not separately verified."""
+List-valued cells (RefList / ChoiceList) are also edited by SMALL EDITS OF THEIR CURRENT VALUE (drop /
+replace / insert / duplicate an element; kind list_edit), followed by an edit of a row the cell
+referenced or references; and the same clause is evaluated over an exhaustive small scope
+(run_reflist_pairs): every ordered pair (old value, new value) of one RefList cell - and of a
+ChoiceList cell next to it - over the lists of length <= 3 (thorough: 4) on 3 target rows, repeats
+inside a list included, each pair followed by an edit of every target row.
+Bounded: seeded random histories over 9 seed documents + that enumeration; never a proof.  The
+dependency graph itself (depend.Graph + dynamic edge recording in Engine._use_node) is not separately
+verified."""
 import os
 import random
 import re
@@ -234,7 +241,7 @@ MULTI_KINDS = ["add", "update", "update", "update", "remove", "bulk_update", "bu
 # may hold the same element more than once - the inputs on which an index that is maintained by
 # diffing the old against the new value (reference relations, CONTAINS lookup indexes) can go wrong.
 LIST_EDITS = ("drop", "drop_last", "replace", "replace_last", "insert", "append", "dup", "dup_end",
-              "swap", "truncate", "undup")
+              "dup", "dup_end", "swap", "truncate", "undup", "undup", "undup")
 
 def edited_list(rng, cur, universe):
   """cur: list of elements (may be empty); universe: elements to draw new ones from."""
@@ -316,7 +323,8 @@ class C05Monitor(explore.Monitor):
     """UpdateRecord that gives one RefList / ChoiceList data cell a small edit of its current value
     (edited_list).  For a RefList, the rows the cell referenced before or references now are
     remembered in st['touch']: one of the next bundles edits a field of one of them (touch), which
-    is when a reference index that lost track of the cell shows."""
+    is when a reference index that lost track of the cell shows.  The next list edit mostly goes on
+    with the same cell (st['list_cell']), so that a cell goes through several small edits."""
     rng = g.rng
     tabs = g.doc(e)
     cands = [(t, c) for t in g.data_tables(tabs) if tabs[t][1] for c in tabs[t][0]
@@ -324,6 +332,12 @@ class C05Monitor(explore.Monitor):
     if not cands: return None
     t, c = rng.choice(cands)
     r = rng.choice(tabs[t][1])
+    last = st.get("list_cell") if st is not None else None
+    if last and rng.random() < 0.6 and any(x[0] == last[0] and x[1][0] == last[1] for x in cands) \
+       and last[2] in tabs[last[0]][1]:
+      t, r = last[0], last[2]                # go on editing the cell edited last
+      c = [x[1] for x in cands if x[0] == t and x[1][0] == last[1]][0]
+    if st is not None: st["list_cell"] = (t, c[0], r)
     try:
       cur = e.tables[t].get_column(c[0]).raw_get(r)
     except Exception:
@@ -619,10 +633,11 @@ WITNESSES = [
 # the RefList, so they follow later edits of the referenced rows only if that index is right.
 # Document: A(n, s) with 3 rows; B(rl RefList:A) with row 1 = the edited cell and row 2 = ['L', 3]
 # (never edited); readers of B.rl by iteration, by attribute of the record set, by SUM, and - from
-# A - by a CONTAINS lookup.
+# A - by a CONTAINS lookup.  A ChoiceList cell B.cl goes through the same pairs (ids mapped to the
+# choices a, b, c) and is read from A by a CONTAINS lookup keyed by A.s.
 gen.SEEDS["c05_reflist"] = [
   [["AddTable", "A", [_col("n", "Int"), _col("s", "Text")]],
-   ["AddTable", "B", [_col("rl", "RefList:A"),
+   ["AddTable", "B", [_col("rl", "RefList:A"), _col("cl", "ChoiceList"),
                       _col("x", "Any", "sum(r.n or 0 for r in $rl)"),
                       _col("y", "Any", "$rl.s"),
                       _col("z", "Int", "SUM($rl.n)"),
@@ -630,11 +645,18 @@ gen.SEEDS["c05_reflist"] = [
    ["AddColumn", "A", "back", {"type": "Any", "isFormula": True,
                                "formula": "[b.id for b in B.lookupRecords(rl=CONTAINS($id))]"}],
    ["AddColumn", "A", "tot", {"type": "Any", "isFormula": True,
-                              "formula": "sum(b.x for b in B.lookupRecords(rl=CONTAINS($id)))"}]],
+                              "formula": "sum(b.x for b in B.lookupRecords(rl=CONTAINS($id)))"}],
+   ["AddColumn", "A", "cback", {"type": "Any", "isFormula": True,
+                                "formula": "[b.id for b in B.lookupRecords(cl=CONTAINS($s))]"}]],
   [["BulkAddRecord", "A", [None, None, None], {"n": [1, 2, 3], "s": ["a", "b", "c"]}],
-   ["BulkAddRecord", "B", [None, None], {"rl": [None, ["L", 3]]}]],
+   ["BulkAddRecord", "B", [None, None], {"rl": [None, ["L", 3]], "cl": [None, ["L", "c"]]}]],
 ]
 REFLIST_IDS = (1, 2, 3)
+CHOICE_OF = {1: "a", 2: "b", 3: "c"}      # the ChoiceList cell B.cl goes through the same pairs
+
+
+def _cells(v):
+  return {"rl": ["L"] + v, "cl": ["L"] + [CHOICE_OF[i] for i in v]}
 
 
 def reflist_values(maxlen):
@@ -648,8 +670,8 @@ def reflist_values(maxlen):
 
 def pair_bundles(old, new):
   """one cell (row 1 of B): set it to old; set it to new; edit field n of every row of A"""
-  return [[["UpdateRecord", "B", 1, {"rl": ["L"] + old}]],
-          [["UpdateRecord", "B", 1, {"rl": ["L"] + new}]],
+  return [[["UpdateRecord", "B", 1, _cells(old)]],
+          [["UpdateRecord", "B", 1, _cells(new)]],
           [["BulkUpdateRecord", "A", list(REFLIST_IDS), {"n": [10 + i for i in REFLIST_IDS]}]]]
 
 
@@ -659,8 +681,8 @@ def batch_bundles(old, values):
   edited.  The cells are independent of each other (each row's formulas read its own cell only)."""
   rows = list(range(3, 3 + len(values)))
   return [[["BulkAddRecord", "B", rows, {}]],
-          [["BulkUpdateRecord", "B", rows, {"rl": [["L"] + old for _ in rows]}]],
-          [["BulkUpdateRecord", "B", rows, {"rl": [["L"] + v for v in values]}]],
+          [["BulkUpdateRecord", "B", rows, {k: [_cells(old)[k] for _ in rows] for k in ("rl", "cl")}]],
+          [["BulkUpdateRecord", "B", rows, {k: [_cells(v)[k] for v in values] for k in ("rl", "cl")}]],
           [["BulkUpdateRecord", "A", list(REFLIST_IDS), {"n": [10 + i for i in REFLIST_IDS]}]]]
 
 
@@ -762,7 +784,8 @@ def main():
   rep = common.Report("C05", "exploration")
   rep.assumptions += [
     common.SHIM_ASSUMPTION,
-    "bounded: seeded random histories over 9 seed documents; not a proof",
+    "bounded: seeded random histories over 9 seed documents, plus every (old, new) pair of values of "
+    "one RefList / ChoiceList cell in a stated small scope (coverage.reflist_pairs); not a proof",
     "the specification function hands the monitored engine's data cells to the fresh engine as "
     "objects (no encode / marshal round trip: that is C07)",
     "volatile / side-effecting functions are never generated; trigger-formula data columns are "
@@ -777,7 +800,8 @@ def main():
     "list attributes, lookupRecords/lookupOne with CONTAINS and order_by, summary $group, "
     "PREVIOUS/NEXT/RANK, cross-table chains) instantiated on the current document and kept "
     "statically acyclic; the other bundles are record adds / updates / removals (single, bulk, "
-    "temporary ids, upserts), column / table renames, added data columns and tables, label edits, "
+    "temporary ids, upserts), small edits of the current value of a RefList / ChoiceList cell "
+    "followed by an edit of a row it referenced, column / table renames, added data columns and tables, label edits, "
     "invalid actions and multi-action bundles of those (see action_mix; NARROWED BOUND: see "
     "outside_the_bound); numbers are compared by value (1 == 1.0); non-trivial = the bundle "
     "changed the document or raised")
